@@ -762,6 +762,13 @@ func c04OwnPort(r *core.Run, prog *core.Program) {
 						scan(d, depth+1)
 					}
 				}
+			case *ast.SelectorExpr:
+				// a VM method used as a value (`(*VM).waitRecv`, `vm.waitRecv` handed to the deferred registry)
+				if c, ok := info.ObjectOf(x.Sel).(*types.Func); ok {
+					if d, ok := decls[c]; ok && core.RecvTypeName(info, d) == "VM" && d.Name.Name != "Init" && d.Name.Name != "CopyState" {
+						scan(d, depth+1)
+					}
+				}
 			case *ast.AssignStmt:
 				for _, l := range x.Lhs {
 					if f := hsField(l); f != nil {
